@@ -2218,11 +2218,26 @@ class DateAdapter(se.Adapter):
         super(DateAdapter, self).__init__(None)
         self._multiplier = multiplier
 
+    _EPOCH = datetime.datetime(1970, 1, 1, tzinfo=datetime.timezone.utc)
+
     def decode(self, val: Any, ctx: Optional[se.ParseContext], pod: bool = False) -> Any:
-        return datetime.datetime.fromtimestamp(val / self._multiplier).isoformat()
+        secs, frac = divmod(val, self._multiplier)
+        try:
+            when = self._EPOCH + datetime.timedelta(seconds=secs, microseconds=frac * 1_000_000 // self._multiplier)
+            # local time *with* its UTC offset, so the repeated hour at the end of DST stays unambiguous
+            return when.astimezone().isoformat()
+        except (OverflowError, ValueError, OSError):
+            # not representable as a datetime (beyond year 9999), leave the number alone
+            return val
 
     def encode(self, val: Any, ctx: Optional[se.ParseContext]) -> Any:
-        return int(datetime.datetime.fromisoformat(val).timestamp() * self._multiplier)
+        if isinstance(val, int):
+            return val
+        when = datetime.datetime.fromisoformat(val)
+        if when.tzinfo is None:
+            when = when.astimezone()
+        delta = when - self._EPOCH
+        return (delta.days * 86400 + delta.seconds) * self._multiplier + delta.microseconds * self._multiplier // 1_000_000
 
 
 @se.enum_field_serializer("MeanCollisionAlert", "MeanCollision", "Type")
